@@ -149,10 +149,19 @@ def main(argv) -> int:
         _restore_tables(mod)
         print(f"INFRA {prop}: {e}", file=sys.stderr)
         return 2
-    except Exception:
+    except (MemoryError, OSError) as e:
+        _restore_tables(mod)
         traceback.print_exc()
-        print(f"INFRA {prop}: harness exception", file=sys.stderr)
+        print(f"INFRA {prop}: {type(e).__name__}", file=sys.stderr)
         return 2
+    except Exception as e:
+        # The harness could not observe the implementation the way it does on the unchanged tree (an internal
+        # representation it reads has changed, an adapter call fails, ...): that is a broken correspondence, not
+        # an infrastructure problem - whatever the direct oracle found before the exception still counts.
+        tb = traceback.extract_tb(e.__traceback__)
+        where = next((f"{f.filename.rsplit('/', 1)[-1]}:{f.lineno}" for f in reversed(tb) if "/harness/" in f.filename), "?")
+        traceback.print_exc()
+        ctx.broken.append(f"correspondence harness failed at {where}: {type(e).__name__}: {str(e)[:200]}")
 
     _restore_tables(mod)
     known = core.load_known().get(prop, [])
